@@ -581,9 +581,19 @@ func genPoolCases(c *Ctx) []json.RawMessage {
 }
 
 func checkC09(c *Ctx) {
-	c.rule = "MC: the grow-and-park / release / flush life-cycle of reader, bytes reader, writer, bytes writer and ReaderSkipDecoder, composed with a co-tenant over 3 pool buffers, keeps the ownership invariants under every interleaving (9 steps). TRACE: real histories over the instrumented pool double (registry, poison-on-free, foreign/double-free detection) that retain every handed-out slice across later operations, with the co-tenant draining and scribbling every size class between operations; every pool event must be an enabled BufPool action (P1..P5) and every content/caller-memory/disjointness monitor event must be ok."
+	c.rule = "MC: the grow-and-park / release / flush life-cycle of reader, bytes reader, writer, bytes writer and ReaderSkipDecoder, composed with a co-tenant over 3 pool buffers, keeps the ownership invariants under every interleaving (9 steps). APALACHE: the invariants plus a strengthening (Ind_BufPool.tla) are inductive for every kind, 4 buffers, runs of any length (base, step, negative control, probes). TRACE: real histories over the instrumented pool double (registry, poison-on-free, foreign/double-free detection) that retain every handed-out slice across later operations, with the co-tenant draining and scribbling every size class between operations; every pool event must be an enabled BufPool action (P1..P5) and every content/caller-memory/disjointness monitor event must be ok."
 	for _, k := range []string{"reader", "bytesreader", "writer", "byteswriter", "decoder"} {
 		c.MC("MC_BufPool.tla", "MC_BufPool_"+k+".cfg", 4)
+	}
+	// unbounded safety (Apalache): IndInv of Ind_BufPool.tla is inductive for every instance kind, 4 pool buffers, runs of
+	// any length and any number of handed-out slices; the step fails under the free-on-grow protocol (negative control)
+	c.Apalache("Ind_BufPool.tla", "base: MCInit => IndInv", false, "--cinit=ConstInit", "--init=MCInit", "--next=Next", "--inv=IndInv", "--length=0")
+	c.Apalache("Ind_BufPool.tla", "step: IndInv /\\ Next => IndInv'", false, "--cinit=ConstInit", "--init=IndInit", "--next=Next", "--inv=IndInv", "--length=1")
+	c.Apalache("Ind_BufPool.tla", "negative control: free-on-grow breaks the step", true, "--cinit=ConstInitNeg", "--init=IndInit", "--next=Next", "--inv=IndInv", "--length=1")
+	if c.Thorough() {
+		for _, pr := range []string{"ProbeNoLive", "ProbeNoPend", "ProbeNoCo"} {
+			c.Apalache("Ind_BufPool.tla", "non-vacuity probe "+pr, true, "--cinit=ConstInit", "--init=IndInit", "--next=Next", "--inv="+pr, "--length=0")
+		}
 	}
 	c.TraceCheck(famPool, genPoolCases(c))
 	c.Assume("the pool double (harness/third_party/bgopkg/lang/mcache) keeps mcache's contract: power-of-two classes, len=size, Free ignores non-power-of-two capacities; it adds registry, LIFO reuse, poison and event log")
